@@ -8,7 +8,7 @@ import ast, json, os, sys
 ROOT = os.path.dirname(os.path.dirname(os.path.abspath(__file__)))
 sys.path.insert(0, ROOT)
 from sa.engine.core import Model
-from sa.engine.runner import defined_names
+from sa.engine.runner import defined_names, normalised_lines
 
 m = Model()
 out = {}
@@ -16,3 +16,6 @@ for rel in m.all_files():
     out[rel] = sorted(defined_names(m.mod(rel).tree))
 json.dump(out, open(os.path.join(ROOT, "sa", "known_names.json"), "w"), indent=0, sort_keys=True)
 print(sum(len(v) for v in out.values()), "names in", len(out), "files")
+src = {rel: normalised_lines(m.mod(rel).tree) for rel in m.all_files()}
+json.dump(src, open(os.path.join(ROOT, "sa", "known_source.json"), "w"), indent=0, sort_keys=True)
+print(sum(len(v) for v in src.values()), "normalised source lines recorded")
